@@ -95,9 +95,13 @@ def run(ctx):
                        "a parameter whose predicate mentions another parameter is not used in instantiate without it (the instantiate builder needs its Serialize bound)"]
     # (1) many specs in-process
     n = ctx.pick(150, 2500)
-    progs = [spec.gen_generic_program(ctx.rng("c15", i), f"q{i:04d}") for i in range(n)]
+    # every fourth contract names one of its type parameters as its error type (`#[sv::error(ErrT)]`): it occurs in every
+    # result type and in no argument or response, so no message carries it (in-process only: `entry_points` cannot name
+    # a generic error type, so such a contract has no compiled twin in the corpus)
+    progs = [spec.gen_generic_program(ctx.rng("c15", i), f"q{i:04d}", generic_error=(i % 4 == 3)) for i in range(n)]
     observe(ctx, progs, "c15a")
     ctx.cov["inproc_generic_programs"] = n
+    ctx.cov["inproc_programs_with_generic_error_type"] = sum(1 for p in progs if p["error"] == "ErrT")
     # (2) compiled family, glue written with the observed parameter order
     by_bin = families_extra.generic_programs(ctx)
     fprogs = [p for ps in by_bin.values() for p in ps]
